@@ -14,7 +14,7 @@ git -C $repo apply $d/patch.diff
 out=/tmp/refactor-out-$name
 rm -rf $out; mkdir -p $out
 printf "%s\n" C01 C02 C03 C04 C05 C06 C07 C08 C09 C10 C11 C12 C13 C14 C15 C16 C17 C18 C19 C20 | \
-  xargs -P 6 -I{} sh -c "VERIF_EVIDENCE_DIR=/tmp/seed-evidence-$name/{} $bin -verif /verif -repo $repo -prop {} -tier quick > $out/{}.log 2>&1"
+  xargs -P ${EVAL_PAR:-6} -I{} sh -c "VERIF_EVIDENCE_DIR=/tmp/seed-evidence-$name/{} $bin -verif /verif -repo $repo -prop {} -tier quick > $out/{}.log 2>&1"
 git -C $repo checkout -- .
 git -C $repo clean -fdq x app types 2>/dev/null
 bad=0
